@@ -76,6 +76,10 @@ def kf_noslack_partial(case, o, kind, cfg, consts):
 def kf_ncpy_backward_bumper_before_slen(case, o, kind, cfg, consts):
     # strncpy_s/strncat_s with src below dest: the bumper test precedes the slen==0 test, so src+slen == dest (nothing of dest read) is rejected
     m = case.meta
+    if m.get('cls') == 'sweep-ovl':
+        # the same loop order in stpncpy_s (sweep arena cases: byte offsets a = dest, b = src)
+        return (case.func == 'stpncpy_s' and kind == 'disjoint-rejected' and m['b'] < m['a'] and m['b'] + m['slen'] == m['a']
+                and m['L'] >= m['slen'] and '404' in [h[1] for h in o.handlers])
     if m.get('cls') != 'arena' or m['kind'] not in ('ncpy', 'ncat') or kind != 'disjoint-rejected': return False
     w = m['w']
     d0 = m['dest'][1] // w; s0 = m['src'][1] // w
